@@ -254,18 +254,14 @@ Qed.
    (for ANY cell conversion / palette plan), merge_layer_down, anchor_layer, stamp_layer_down, paste_clipboard_data,
    add_selection_to_mask, inverse_selection, enumerate_selections (ANY callback), clear_selection, erase_selection and the nine
    row / column wrappers reading the selection mask, rotate_layer (ANY character table), scroll_area_up / down (over the whole
-   layer width and over part of it), insert / delete row and column — is a sound edit whenever it is applied OUTSIDE its known class K (a predicate on the state it is applied to).
-   Since the fix commits for the four font / SAUCE findings EVERY constructor of xmodelled carries K = `never` (= fun _ => False):
-   the premise ~ K (cur e) is trivially true (x_api_sound_everywhere) *)
-Theorem x_api_sound : forall f K, xmodelled f K ->
-  forall e e', ~ K (cur e) -> f e = Ok e' -> edit_chain xop_undo xop_redo xeqv e e'.
+   layer width and over part of it), insert / delete row and column — is a sound edit on EVERY state on which it reports Ok.
+   (Before the fix commits for the six known findings this theorem was stated outside a known class K of each operation; the
+   classes are gone, `xmodelled` has no class index any more.) *)
+Theorem x_api_sound : forall f, xmodelled f ->
+  forall e e', f e = Ok e' -> edit_chain xop_undo xop_redo xeqv e e'.
 Proof. exact xmodelled_sound. Qed.
 
-Theorem x_api_sound_everywhere : forall f K, xmodelled f K -> (forall s, ~ K s) /\ forall e e', f e = Ok e' -> edit_chain xop_undo xop_redo xeqv e e'.
-Proof. exact xmodelled_sound_everywhere. Qed.
-
-(* x_undo_redo_history: any history over the modelled operations on the full document, each applied outside its known class
-   and reporting Ok, from a fresh editor; then EVERY interleaving of undo / redo steps: no step fails or panics and the full
+(* x_undo_redo_history: any history over the modelled operations on the full document, each reporting Ok, from a fresh editor; then EVERY interleaving of undo / redo steps: no step fails or panics and the full
    document is xeqv to the entry of one fixed timeline the walk points at *)
 Theorem x_undo_redo_history : forall fs (e0 en : XE) d, fresh e0 -> xrun fs e0 en ->
   let n := length (ustk en) in
@@ -344,13 +340,13 @@ Example xex_hist_runs : exists en, xrun xex_hist (wit_doc [(0, 1)]%N None 3 0) e
 Proof.
   eexists. split.
   - unfold xex_hist.
-    eapply xrun_cons; [apply xm_switch_to_palette|intros []|vm_compute; reflexivity|].
-    eapply xrun_cons; [apply xm_lift, lf_set_char|intros []|vm_compute; reflexivity|].
-    eapply xrun_cons; [apply xm_paste|intros []|vm_compute; reflexivity|].
-    eapply xrun_cons; [apply xm_merge_layer_down|intros []|vm_compute; reflexivity|].
-    eapply xrun_cons; [apply xm_resize_buffer_layers|intros []|vm_compute; reflexivity|].
-    eapply xrun_cons; [apply xm_add_ansi_font|intros []|vm_compute; reflexivity|].
-    eapply xrun_cons; [apply (xm_set_ice_mode ice_conv)|intros []|vm_compute; reflexivity|].
+    eapply xrun_cons; [apply xm_switch_to_palette|vm_compute; reflexivity|].
+    eapply xrun_cons; [apply xm_lift, lf_set_char|vm_compute; reflexivity|].
+    eapply xrun_cons; [apply xm_paste|vm_compute; reflexivity|].
+    eapply xrun_cons; [apply xm_merge_layer_down|vm_compute; reflexivity|].
+    eapply xrun_cons; [apply xm_resize_buffer_layers|vm_compute; reflexivity|].
+    eapply xrun_cons; [apply xm_add_ansi_font|vm_compute; reflexivity|].
+    eapply xrun_cons; [apply (xm_set_ice_mode ice_conv)|vm_compute; reflexivity|].
     apply xrun_nil.
   - repeat split; reflexivity.
 Qed.
@@ -370,11 +366,11 @@ Example xex_rc_hist_runs : exists en, xrun xex_rc_hist xex_rc_doc en /\ length (
 Proof.
   eexists. split.
   - unfold xex_rc_hist.
-    eapply xrun_cons; [apply xm_insert_column|intros []|vm_compute; reflexivity|].
-    eapply xrun_cons; [apply xm_delete_row|intros []|vm_compute; reflexivity|].
-    eapply xrun_cons; [apply xm_delete_column|intros []|vm_compute; reflexivity|].
-    eapply xrun_cons; [apply xm_insert_row|intros []|vm_compute; reflexivity|].
-    eapply xrun_cons; [apply xm_set_palette_mode|intros []|vm_compute; reflexivity|].
+    eapply xrun_cons; [apply xm_insert_column|vm_compute; reflexivity|].
+    eapply xrun_cons; [apply xm_delete_row|vm_compute; reflexivity|].
+    eapply xrun_cons; [apply xm_delete_column|vm_compute; reflexivity|].
+    eapply xrun_cons; [apply xm_insert_row|vm_compute; reflexivity|].
+    eapply xrun_cons; [apply xm_set_palette_mode|vm_compute; reflexivity|].
     apply xrun_nil.
   - split; [reflexivity|]. intros L H. vm_compute in H. injection H as <-. reflexivity.
 Qed.
